@@ -15,12 +15,14 @@ mod rbac;
 mod scenarios;
 mod world;
 mod crypto;
+mod diskuse;
 mod hostile;
 mod hosts;
 mod http;
 mod keeper;
 mod seams;
 mod smoke;
+mod telemetry;
 
 use std::sync::Mutex;
 
